@@ -71,6 +71,20 @@ def worker(widx, q, outf):
             code, out = sh([MUT, "-file", path, "-funcs", m["funcs"], "-apply", str(m["k"]), "-out", path])
             if code != 0:
                 rec["status"] = "mutate_failed"
+            elif m.get("recheck"):
+                # second pass over a survivor the first pass did not notice: the remaining checks
+                rec["status"] = "survived_suite"
+                rec["checks"] = dict(m.get("checks") or {})
+                for p in m["recheck"]:
+                    c, o = sh([os.path.join(CHECKROOT, "check"), p], cwd=CHECKROOT, env=dict(ENV, VERIF_REPO=wt, VERIF_SEED="1"), timeout=1800)
+                    keys = [l.split("violation ", 1)[1].strip() for l in o.splitlines() if "] violation " in l][:3]
+                    rec["checks"][p] = {"exit": c, "keys": keys}
+                    if c == 1:
+                        break
+                rec["detected"] = any(v["exit"] == 1 for v in rec["checks"].values())
+                rec["trouble"] = any(v["exit"] not in (0, 1) for v in rec["checks"].values())
+                rec["pass"] = 2
+                rec.pop("recheck", None)
             else:
                 code, out = sh(["go", "build", "./..."], cwd=wt, env=env)
                 if code != 0:
@@ -110,7 +124,10 @@ def main():
     ap.add_argument("--limit", type=int, default=0, help="sample this many mutants (seeded)")
     ap.add_argument("--targets", default="")
     ap.add_argument("--out", default=os.path.join(ROOT, "mutation", "results.jsonl"))
+    ap.add_argument("--recheck", action="store_true", help="second pass: run the checks not yet run (and re-run troubled ones) on undetected survivors; results go to mutation/recheck.jsonl")
     args = ap.parse_args()
+    if args.recheck:
+        return recheck(args)
     os.makedirs(os.path.dirname(args.out), exist_ok=True)
     done = set()
     if os.path.exists(args.out):
@@ -140,6 +157,46 @@ def main():
     for m in muts:
         q.put(m)
     with open(args.out, "a") as outf:
+        ths = [threading.Thread(target=worker, args=(i, q, outf)) for i in range(args.workers)]
+        for t in ths:
+            t.start()
+        for t in ths:
+            t.join()
+    shutil.rmtree(CHECKROOT, ignore_errors=True)
+
+
+def recheck(args):
+    global CHECKROOT
+    src = args.out
+    out = os.path.join(os.path.dirname(src), "recheck.jsonl")
+    done = set()
+    if os.path.exists(out):
+        for l in open(out):
+            d = json.loads(l)
+            done.add((d["target"], d["k"]))
+    cheap = ["C04", "C05", "C06", "C13", "C18"]
+    muts, seen = [], set()
+    for l in open(src):
+        d = json.loads(l)
+        key = (d["target"], d["k"])
+        if key in seen or key in done:
+            continue
+        seen.add(key)
+        if d["status"] != "survived_suite" or d.get("detected"):
+            continue
+        ran_ok = {p for p, v in (d.get("checks") or {}).items() if v["exit"] in (0, 1)}
+        todo = [p for p in d["props"] if p not in ran_ok] + [p for p in cheap if p not in d["props"]]
+        d["recheck"] = todo
+        d["checks"] = {p: v for p, v in (d.get("checks") or {}).items() if v["exit"] in (0, 1)}
+        muts.append(d)
+    print(f"{len(muts)} survivors to re-check", flush=True)
+    CHECKROOT = f"/tmp/mutverif-{os.getpid()}"
+    shutil.rmtree(CHECKROOT, ignore_errors=True)
+    subprocess.run(["rsync", "-a", "--exclude", ".build", "--exclude", "replays", "--exclude", "mutation", "--exclude", ".git", ROOT + "/", CHECKROOT + "/"], check=True)
+    q = queue.Queue()
+    for m in muts:
+        q.put(m)
+    with open(out, "a") as outf:
         ths = [threading.Thread(target=worker, args=(i, q, outf)) for i in range(args.workers)]
         for t in ths:
             t.start()
